@@ -195,6 +195,7 @@ def generate_cold(seed, spec, rng, nops, weights, seed_ops=("blocks",), on_op=No
 
 def _generate(task, rng, world, nops, weights, on_op, seed_ops, strict):
     wts = dict(e1.DEFAULT_WEIGHTS if weights is None else weights)
+    wts = {k: v for k, v in wts.items() if k in e1.OPS}
     names = sorted(wts)
     g = e1.Gen(task, rng, world)
     g.strict = strict
